@@ -138,13 +138,37 @@ TailProduct ==
   { [nm |-> "cycle", defs |-> <<Def("pa", Lam(<<"i", "n">>, "", If(AtEnd, Depth, TCtx(cx, TCall(kd, via)))))>> \o TDefB(kd),
      run |-> Lam(<<"n">>, "", App(V("pa"), <<I(0), P("*", <<I(2), V("n")>>)>>))]
     : kd \in TKinds, cx \in TCtxs, via \in TVias }
+\* generated product: the PARAMETER LIST of the callee (how its frame is laid out from the operands: rest
+\* only / one + rest / two + rest with 0 or 2 extras) x the call PATH (direct, apply of a list, apply with
+\* leading operands and a list) x the kind of callee (global procedure, closure in a local variable).
+\* Each (shape, path) pair goes through a different arm of the argument shuffle over the reused frame.
+PShapes == {"r", "i.r", "in.r0", "in.r2"}
+PVias   == {"direct", "apply-list", "apply-mixed"}
+PHolds  == {"global", "local"}
+PLam(ps) == CASE ps = "r"   -> Lam(<< >>, "r", Let(<< <<"i", P("car", <<V("r")>>)>>, <<"n", P("car", <<P("cdr", <<V("r")>>)>>)>> >>, TBodyB))
+              [] ps = "i.r" -> Lam(<<"i">>, "r", Let(<< <<"n", P("car", <<V("r")>>)>> >>, TBodyB))
+              [] OTHER      -> Lam(<<"i", "n">>, "r", TBodyB)
+PArgs(ps) == IF ps = "in.r2" THEN <<Inc("i"), V("n"), I(8), I(9)>> ELSE <<Inc("i"), V("n")>>
+PCall(f, ps, via) == CASE via = "direct"      -> App(f, PArgs(ps))
+                       [] via = "apply-list"  -> P("apply", <<f, P("list", PArgs(ps))>>)
+                       [] via = "apply-mixed" -> P("apply", <<f, PArgs(ps)[1], P("list", Tail(PArgs(ps)))>>)
+TailParams ==
+  { [nm |-> "params", defs |-> <<Def("pa", Lam(<<"i", "n">>, "", If(AtEnd, Depth, PCall(V("pb"), ps, via)))), Def("pb", PLam(ps))>>,
+     run |-> Lam(<<"n">>, "", App(V("pa"), <<I(0), P("*", <<I(2), V("n")>>)>>))]
+    : ps \in PShapes, via \in PVias }
+  \cup
+  \* the callee is a closure held in a local variable of the caller (TAILCALL on a stack callee), looping on itself
+  { [nm |-> "params-local", defs |-> << >>,
+     run |-> Lam(<<"n">>, "", LetRec(<< <<"pb", PLam(ps)>>, <<"pa", Lam(<<"i", "n">>, "", If(AtEnd, Depth, PCall(V("pb"), ps, via)))>> >>,
+                                     App(V("pa"), <<I(0), P("*", <<I(2), V("n")>>)>>)))]
+    : ps \in PShapes, via \in PVias }
 \* every run happens in the same context (a top-level define), so the depth is comparable
 TailFam == { << Pre, sh.defs \o <<Def("run", sh.run)>>,
                 <<Def("da", App(V("run"), <<IF "big" \in DOMAIN sh THEN MidHalf ELSE BigHalf>>)),
                   Def("db", App(V("run"), <<IF "big" \in DOMAIN sh THEN sh.big ELSE BigN>>)),
                   Def("dc", App(V("run"), <<IF "big" \in DOMAIN sh THEN MidHalf ELSE BigHalf>>))>>,
                 <<Emit1(P("depth=?", <<V("da"), V("db")>>)), Emit1(P("depth=?", <<V("da"), V("dc")>>))>> >>
-             : sh \in TailShapes \cup TailProduct }
+             : sh \in TailShapes \cup TailProduct \cup TailParams }
 
 -----------------------------------------------------------------------------
 (* control: capture context x wind nesting x error x invocation, inside ONE form *)
